@@ -42,10 +42,31 @@ CMP_NORM = {"==": "=", "=": "=", "!=": "≠", "≠": "≠", "<=": "≤", "≤": 
 MIRROR = {"<": ">", ">": "<", "≤": "≥", "≥": "≤", "=": "=", "≠": "≠"}
 
 
-def small_program(rng):
-    f = rng.choice([C01.s_op_single, C01.s_dag_distinct, C01.s_sel, C01.s_logic_chain, C01.s_literal_left, C01.s_sel_same_typed,
-                    C01.s_two_producers, C02.s_arith, C02.s_filter, C02.s_gate, C02.s_anyall,
-                    C06.s_inline, C06.s_noninline, C06.s_chest, "mem", "latch"])
+def s_emitter_paths(rng, nval):
+    """One program through every configuration path of the entity emitter: single- and multi-row deciders with a
+    constant, a copied signal and a same-channel copied signal as output, both operand orders, each-arithmetic."""
+    types = gen.Types(rng)
+    ta, tc = types.fresh(), types.fresh()
+    prog = [["input", "a", ta, rng.randint(4, 9)], ["input", "c", tc, rng.randint(0, 2)], ["input", "v", ta, rng.randint(50, 99)],
+            ["input", "w", types.fresh(), rng.randint(10, 40)]]
+    lg = rng.choice(["&&", "||"])
+    chain = [lg, ["c", ">", ["v", "a"], ["n", 3]], ["c", "<", ["v", "c"], ["n", 3]]]
+    prog.append(["sig", "o1", ["s", chain, ["v", "v"]]])                               # rows, copy, same channel as a
+    prog.append(["sig", "o2", ["p", ["s", chain, ["v", "w"]], types.fresh()]])          # rows, copy, other channel
+    prog.append(["sig", "o3", ["p", ["s", chain, ["n", rng.randint(2, 30)]], types.fresh()]])   # rows, constant
+    prog.append(["sig", "o4", ["s", ["c", ">", ["v", "a"], ["v", "c"]], ["v", "v"]]])   # one row, copy, same channel
+    prog.append(["sig", "o5", ["p", ["s", ["c", "<", ["n", 3], ["v", "a"]], ["v", "w"]], types.fresh()]])  # literal left
+    prog.append(["bun", "bb", ["bb", "*", ["B", [["v", "c"], ["v", "w"]]], ["n", 2]]])
+    return {"prog": prog}
+
+
+ROSTER = [C01.s_op_single, C01.s_dag_distinct, C01.s_sel, C01.s_logic_chain, C01.s_literal_left, C01.s_sel_same_typed,
+          C01.s_two_producers, C02.s_arith, C02.s_filter, C02.s_gate, C02.s_anyall,
+          C06.s_inline, C06.s_noninline, C06.s_chest, "mem", "latch", s_emitter_paths]
+
+
+def small_program(rng, f=None):
+    f = f or rng.choice(ROSTER)
     if f == "mem":
         return C03.build(rng, "basic")[0]
     if f == "latch":
@@ -59,7 +80,8 @@ def gen_cases(tier, seed):
     cases = []
     for i in range(n):
         sub = random.Random(rng.randrange(1 << 60))
-        prog = small_program(sub)
+        # every generator once (so that each emitter path is in every run), then at random
+        prog = small_program(sub, ROSTER[i] if i < len(ROSTER) else None)
         runs = []
         for _ in range(3 if tier == "quick" else 5):
             entry = sub.choice(["module", "compile_py", "main_call"])
